@@ -72,7 +72,15 @@ impl<'a> Autocompletion<'a> {
         // only common prefix
         let len = match self.autocompleted() {
             Some(current) => utils::common_prefix_len(autocompletion, current),
-            None => autocompletion.len(),
+            None => {
+                // first candidate: keep as much of it as fits (cut at a char boundary),
+                // so that following candidates are still compared with it
+                let mut len = autocompletion.len().min(self.buffer.len());
+                while !autocompletion.is_char_boundary(len) {
+                    len -= 1;
+                }
+                len
+            }
         };
 
         if len > self.buffer.len() {
